@@ -4,6 +4,7 @@ mod c15;
 mod c16;
 mod c17;
 mod c18;
+mod c19;
 mod common;
 mod guard;
 mod pd;
@@ -25,6 +26,7 @@ fn main() {
         "c16" => c16::gen(&args),
         "c17" => c17::gen(&args),
         "c18" => c18::gen(&args),
+        "c19" => c19::gen(&args),
         "c01" => solar::gen_c01(&args),
         "c02" => solar::gen_c02(&args),
         "c03" => solar::gen_c03(&args),
